@@ -250,11 +250,24 @@ def run(prog: Program, chk: Check):
                  "a kind the front end accepts but a back end does not know aborts compilation with an internal error")
     disp = [("python", "get_descriptor"), ("c99", "generate_struct"), ("javascript", "generate_obj"), ("matlab", "generate_struct"),
             ("c99", "generate_type_alias"), ("javascript", "generate_type_alias"), ("matlab", "generate_type_alias"), ("python", "generate_type_alias")]
+    def unit(f, depth=0):
+        """f and the methods of its class it delegates to on self (the dispatch may live in a helper)"""
+        out = [f]
+        if depth < 2:
+            for c in calls_in(f.node):
+                if isinstance(c.func, ast.Attribute) and path_of(c.func.value) == "self" and f.cls is not None and c.func.attr in f.cls.methods and c.func.attr != f.name:
+                    for u in unit(f.cls.methods[c.func.attr], depth + 1):
+                        if all(u.key != o.key for o in out):
+                            out.append(u)
+        return out
+
     for b, fn in disp:
         modname, clsname = BACKENDS[b]
-        f = prog.func(modname, f"{clsname}.{fn}")
-        tests = " || ".join(norm(n.test) for n in walk_local(f.node) if isinstance(n, ast.If))
-        covers = {"native": "type_map" in tests or "type_map.get" in norm(f.node), "alias": "parser.aliases" in tests, "struct": "parser.struct_defs" in tests, "message": "parser.message_defs" in tests}
+        f0 = prog.func(modname, f"{clsname}.{fn}")
+        us = unit(f0)
+        f = f0
+        tests = " || ".join(norm(n.test) for u in us for n in walk_local(u.node) if isinstance(n, ast.If))
+        covers = {"native": "type_map" in tests or any("type_map.get" in norm(u.node) for u in us), "alias": "parser.aliases" in tests, "struct": "parser.struct_defs" in tests, "message": "parser.message_defs" in tests}
         is_alias_fn = fn == "generate_type_alias"
         need = {"native", "alias", "struct"} if is_alias_fn else {"native", "alias", "struct", "message"}
         if b == "python" and is_alias_fn:
@@ -262,11 +275,13 @@ def run(prog: Program, chk: Check):
             X.ok(fkey(f, "total"), where(f), "python alias emitter falls back to the referenced name")
             continue
         missing = sorted(k for k in need if not covers[k])
-        has_else_raise = any(isinstance(n, ast.Raise) for n in walk_local(f.node))
+        has_else_raise = any(isinstance(n, ast.Raise) for u in us for n in walk_local(u.node))
         X.decide(not missing and has_else_raise, fkey(f, "total"), where(f), f"covers {sorted(need)} and raises otherwise",
                  f"{b}.{fn}: dispatch does not cover {missing}" if missing else f"{b}.{fn}: no explicit error for unknown kinds")
     gd = prog.func(BACKENDS["python"][0], "PyDefCompiler.get_descriptor")
-    rec = any(is_method_call(c, "get_descriptor") and path_of(recv_of(c)) == "self" for c in calls_in(gd.node))
+    gus = unit(gd)
+    rec = any(is_method_call(c, tuple(u.name for u in gus)) and path_of(recv_of(c)) == "self" and any(isinstance(a, ast.If) and "parser.aliases" in norm(a.test) for a in ancestors(c))
+              for u in gus for c in calls_in(u.node))
     X.decide(rec, fkey(gd, "alias-recursion"), where(gd), "aliases are resolved recursively to a non-alias kind", "python get_descriptor no longer resolves aliases recursively")
     # ---- W working directory discipline ---------------------------------------------------------------------------------
     from .. import cfg as C, flow, guards as G_
@@ -283,6 +298,13 @@ def run(prog: Program, chk: Check):
         esc = flow.must_follow(g, into, back, exits=("exit",)) if into else []
         W.decide(bool(into) and bool(back) and not esc, fkey(f, "cwd-restored"), where(f), "every normal exit after os.chdir(<file dir>) passes os.chdir(<saved cwd>)",
                  f"{fn} can return normally without changing back to the saved working directory")
+
+    # ---- D a shared file of the closure is read once -------------------------------------------------------------------------
+    from .c12 import file_read_once
+
+    D = chk.rule("C15-D", "a file reached by two import paths (different spellings of the same path) is read once: parse_file keys the once-only test by the resolved path", 4,
+                 "read twice, the shared file's definitions conflict with themselves: a conflict-free closure is rejected and produces no output at all")
+    file_read_once(prog, callgraph.get(prog), D)
 
     # ---- R reserved names / P descriptor preconditions -----------------------------------------------------------------------
     R = chk.rule("C15-R", "field names that collide with generated class attributes are rejected for every definition kind; emitted descriptors satisfy their constructors' preconditions", 3,
@@ -301,21 +323,28 @@ def run(prog: Program, chk: Check):
             t = a.test
             if isinstance(t, ast.Compare) and len(t.ops) == 1 and isinstance(t.ops[0], ast.Gt) and isinstance(t.comparators[0], ast.Constant) and isinstance(t.left, ast.Name):
                 pre[cname] = t.comparators[0].value
-    gdf = prog.func(py_mod, f"{py_cls}.get_descriptor")
-    gg = C.build(gdf.node)
-    ggs = flow.guard_states(gg)
-    lenp = gdf.params()[-1]
     nchk = 0
-    for n in gg.nodes:
-        if n.kind == "stmt" and isinstance(n.ast, ast.Return) and isinstance(n.ast.value, ast.JoinedStr):
-            txt = "".join(v.value if isinstance(v, ast.Constant) else "{" + norm(v.value) + "}" for v in n.ast.value.values)
+    # wherever the Python back end emits a descriptor constructor (get_descriptor today; a helper it delegates to counts as well)
+    for gdf in prog.cls(py_mod, py_cls).methods.values():
+        rets = [n for n in walk_local(gdf.node) if isinstance(n, ast.Return) and isinstance(n.value, ast.JoinedStr)]
+        if not rets or len(gdf.params()) < 2:
+            continue
+        gg = None
+        for lenp in [q for q in gdf.params() if q != "self"]:
             for cname, k in pre.items():
-                if re.search(rf"= {cname}\(\{{{lenp}\}}\)", txt):
+                for r in rets:
+                    txt = "".join(v.value if isinstance(v, ast.Constant) else "{" + norm(v.value) + "}" for v in r.value.values)
+                    if not re.search(rf"= {cname}\(\{{{lenp}\}}\)", txt):
+                        continue
+                    if gg is None:
+                        gg = C.build(gdf.node)
+                        ggs = flow.guard_states(gg)
+                    n = next(m for m in gg.nodes if m.ast is r)
                     nchk += 1
                     with G_.int_theory():
                         bad = G_.any_path_implies(ggs.at(n), G_.parse(f"{lenp} > {k}"))
-                    R.decide(not bad, fkey(gdf, f"precondition:{cname}"), where(gdf, n.ast), f"{cname}({{{lenp}}}) is emitted only when {lenp} > {k}",
-                             f"get_descriptor can emit {cname}({lenp}) with {lenp} <= {k}, but {cname}.__init__ asserts len > {k}: the generated module raises AssertionError at import")
+                    R.decide(not bad, fkey(gdf, f"precondition:{cname}"), where(gdf, r), f"{cname}({{{lenp}}}) is emitted only when {lenp} > {k}",
+                             f"{gdf.name} can emit {cname}({lenp}) with {lenp} <= {k}, but {cname}.__init__ asserts len > {k}: the generated module raises AssertionError at import")
     if nchk < 2:
         raise AnalysisError(f"anchor vanished: String/ByteArray emission sites in get_descriptor ({nchk})")
     chk.units.update({"reference_edges": [f"{a}->{b}" for a, b in edges]})
